@@ -305,7 +305,8 @@ class ProcessSnapshot(Stream):
         if got != want:
             r["_inside_delta"] = {"unexpected": sorted(got - want), "not_substituted": sorted(want - got)}
             return False
-        if ins.get("meta_path_new") != (1 if "sys.meta_path:meta_hook" in m["resources"] else 0):
+        own = 1 if "meta-path-append" in case["spec"].get("prelude", []) else 0
+        if ins.get("meta_path_new") != (1 if "sys.meta_path:meta_hook" in m["resources"] else 0) + own:
             return False
         # afterwards: only what every exit of the skeleton leaves held
         left = set()
@@ -374,6 +375,9 @@ class ProcessSnapshot(Stream):
             if k in d:
                 sig = "C13/not-restored/" + k
                 beh = spec.get("prelude", []) + spec.get("postlude", [])
+                if k == "meta_path" and "meta-path-append" in beh and d[k] and set(d[k]) == {"_RvScriptFinder"}:
+                    # D49: only the finder the script installed itself is left (nothing of the analyser's)
+                    sig += "/finder-installed-by-the-script"
                 if k == "modules_left" and "repatch-getcwd" in beh and ({"load-rel", "load-rel-then-leave"} & set(beh)):
                     # D48: the clean-up recognises project modules through os.path.abspath, i.e. through the *script's* os.getcwd
                     sig += "/script-replaced-getcwd"
